@@ -52,6 +52,16 @@ static inline str str_concat(sv a, sv b) {
   if (n > 0) r.data[0] = a.len > 0 ? a.data[0] : b.data[0];
 #endif
   r.data[n] = 0; r.len = n; return r; }
+/* std::transform over characters with a capture-less function (in place or into another buffer of the same length) */
+static inline char *shim_transform_char(char *b, char *e, char *o, char (*f)(char)) {
+  SHIM_ASSERT(__CPROVER_same_object(b, e) && b <= e, "shim.transform.range_valid");
+  unsigned long n = (unsigned long)(e - b); unsigned long i = 0;
+  while (i < n)
+    __CPROVER_assigns(i, __CPROVER_object_whole(o))
+    __CPROVER_loop_invariant(i <= n)
+    __CPROVER_decreases(n - i)
+  { o[i] = f(b[i]); i++; }
+  return o + n; }
 static inline str *str_assign(str *d, sv s) { *d = str_from_sv(s); return d; }
 static inline str str_substr(const str *s, unsigned long pos, unsigned long n) {
   if (pos > s->len) { __exc = EXC_out_of_range; return str_empty(); }
